@@ -1,5 +1,6 @@
 import Rp2.Props.Tables.Imports
 import Rp2.Proofs.CliFiles
+import Rp2.Proofs.IniCli
 /-! # C18 — no network, no subprocess, writes confined to the output and log directories -/
 namespace Rp2.C18
 open Rp2 Rp2.Tables
@@ -18,4 +19,8 @@ theorem file_mutating_calls_are_log_output_and_reports : Gen.fileMutations =
 /-- the files the run writes are the reports `<prefix><method>_<generator>.ods` of the output directory, nothing else -/
 theorem written_files_are_reports (o : Cli.Options) (acctName holderOf : Nat → String) (cfgAssets : List String) (sheets : List Cli.AssetIn) :
     ∀ f ∈ (Cli.run o acctName holderOf cfgAssets sheets).files, ∃ m base, f.1 = Cli.fileName o.pfx m base := Cli.run_files o acctName holderOf cfgAssets sheets
+/-- … and the same for the whole run from the configuration file's sections and the workbook's cells (`Cli.runIni`, what the end-to-end
+    stream compares real runs with): whatever the configuration, options and cells, only report files are written -/
+theorem written_files_are_reports_from_inputs (o : Cli.Options) (ini : Option (List Ini.Section)) (grids : List (String × List (List Cell))) :
+    ∀ f ∈ (Cli.runIni o ini grids).files, ∃ m base, f.1 = Cli.fileName o.pfx m base := Cli.runIni_files o ini grids
 end Rp2.C18
